@@ -217,6 +217,12 @@ func (c C14) Run(t *tape.Tape, opt core.RunOpt) (res core.Result) {
 				}
 			}
 			if poisoned {
+				if sc := gen.PickLoaded("scalar"); sc != nil && t.Bool(1, 3) {
+					// a Go implementation of a scalar the schema already declares,
+					// in a call that fails (for this or for the next reason)
+					sp := &workload.TypeSpec{Kind: "goscalar", Name: sc.Name}
+					frags = append(frags, workload.Fragment{Kind: "go_scalar_named_like_a_loaded_scalar", Text: sp.SDL(), Spec: sp, Mutates: true})
+				}
 				frags = append(frags, addTypesPoison(gen))
 			}
 			if len(frags) == 0 {
